@@ -389,6 +389,44 @@ func ruleW1(r *Run) {
 			}
 		})
 	}
+	// cond.Broadcast as a method value handed to a helper that merely calls it (u.withLock(u.cond.Broadcast)): a wake
+	// site where the helper is called
+	for _, fn := range p.Funcs {
+		allInstrs(fn, func(ins ssa.Instruction) {
+			mc, ok := ins.(*ssa.MakeClosure)
+			if !ok || len(mc.Bindings) != 1 || mc.Referrers() == nil {
+				return
+			}
+			bf, isF := mc.Fn.(*ssa.Function)
+			if !isF || !strings.HasSuffix(bf.Name(), "$bound") || bf.Object() == nil || bf.Object().Pkg() == nil || bf.Object().Pkg().Path() != "sync" {
+				return
+			}
+			if nm := bf.Object().Name(); nm != "Broadcast" && nm != "Signal" {
+				return
+			}
+			f, owner := condFieldOf(mc.Bindings[0])
+			if f == nil {
+				return
+			}
+			for _, ref := range *mc.Referrers() {
+				cc := instrCall(ref)
+				if cc == nil {
+					continue
+				}
+				h := cc.StaticCallee()
+				if h == nil || !p.Analysed(h) {
+					continue
+				}
+				for j, a := range cc.Args {
+					if a == ssa.Value(mc) {
+						if _, pure := paramInvocations(h, j); pure {
+							wakes = append(wakes, condUse{f, owner, ref, fn})
+						}
+					}
+				}
+			}
+		})
+	}
 	// calls of small helpers that broadcast count as wake sites of the caller
 	helpers := wakeHelpers(p)
 	for _, fn := range p.Funcs {
@@ -2672,4 +2710,90 @@ func shortKey(k string) string {
 		return k[i+1:]
 	}
 	return k
+}
+
+// ruleAtomicReadModifyWrite: an atomic variable that one function advances (Add, or Store of a computed value) and
+// another function reads and then resets is a counter handed from one goroutine to another. Reading it with Load and
+// resetting it with a separate Store loses whatever was added in between; the read-and-reset has to be one operation
+// (Swap, or a CompareAndSwap loop).
+func ruleAtomicReadModifyWrite(r *Run, id string, pkgs ...string) {
+	r.Begin(id, "atomic counters are taken in one step: where a function Loads an atomic integer field that another function Adds to, it does not also Store a constant into it (Swap takes and resets in one operation)", 0)
+	p := r.P
+	inPkgs := func(fn *ssa.Function) bool {
+		for _, pk := range pkgs {
+			if strings.HasPrefix(fnPkgPath(fn), modPath+pk) {
+				return true
+			}
+		}
+		return false
+	}
+	atomicOp := func(ins ssa.Instruction) (field, op string, cc *ssa.CallCommon) {
+		cc = instrCall(ins)
+		if cc == nil || len(cc.Args) == 0 {
+			return "", "", nil
+		}
+		o := calleeObj(cc)
+		if o == nil || o.Pkg() == nil || o.Pkg().Path() != "sync/atomic" {
+			return "", "", nil
+		}
+		switch recvNamed(o) {
+		case "Int32", "Int64", "Uint32", "Uint64", "Uintptr":
+		default:
+			return "", "", nil
+		}
+		fk := fieldKeyOfAddr(cc.Args[0])
+		if fk == "" {
+			return "", "", nil
+		}
+		return fk, o.Name(), cc
+	}
+	adders := map[string]map[*ssa.Function]bool{}
+	for _, fn := range p.Funcs {
+		if !inPkgs(fn) || fn.Blocks == nil {
+			continue
+		}
+		allInstrs(fn, func(ins ssa.Instruction) {
+			if fk, op, _ := atomicOp(ins); op == "Add" {
+				if adders[fk] == nil {
+					adders[fk] = map[*ssa.Function]bool{}
+				}
+				adders[fk][topFunc(fn)] = true
+			}
+		})
+	}
+	n := 0
+	for _, fn := range p.Funcs {
+		if !inPkgs(fn) || fn.Blocks == nil {
+			continue
+		}
+		loads := map[string]ssa.Instruction{}
+		allInstrs(fn, func(ins ssa.Instruction) {
+			if fk, op, _ := atomicOp(ins); op == "Load" {
+				loads[fk] = ins
+			}
+		})
+		allInstrs(fn, func(ins ssa.Instruction) {
+			fk, op, cc := atomicOp(ins)
+			if op != "Store" || loads[fk] == nil || len(cc.Args) < 2 {
+				return
+			}
+			if _, isK := cc.Args[1].(*ssa.Const); !isK {
+				return
+			}
+			other := false
+			for f := range adders[fk] {
+				if f != topFunc(fn) {
+					other = true
+				}
+			}
+			if !other {
+				return
+			}
+			n++
+			r.Check(fmt.Sprintf("%s takes %s in one step", fnName(fn), shortKey(fk)), false, posOf(p, ins), fnName(fn), "the counter is read with Load at "+posOf(p, loads[fk])+" and reset with a separate Store here, while another function Adds to it: an Add that falls between the two is wiped out (use Swap)")
+		})
+	}
+	if n == 0 {
+		r.Check("load-then-store on shared atomic counters", true, "", "", "none")
+	}
 }
